@@ -621,7 +621,11 @@ func TestVerifC12Limits(t *testing.T) {
 		for i := 1; i <= ntr; i++ {
 			cfg := c12Cfg{entry: f[0], conc: conc, maxip: maxip, keep: rng.Intn(2) == 0, reduceMem: rng.Intn(4) == 0,
 				nconns: 3 + rng.Intn(6)}
+			t0 := time.Now()
 			n, key, detail := c12RunOne(t, rng, tw, i, cfg)
+			if os.Getenv("VERIF_C12_DEBUG") != "" {
+				t.Logf("exec %d %+v: %d events %v", i, cfg, n, time.Since(t0))
+			}
 			total += n
 			nexec++
 			if key != "" {
